@@ -335,6 +335,46 @@ def v_records(tier: str, rng: random.Random):
         text = rng.choice(['"d"', '"""d' + rng.choice(terms) + 'e"""', ""]) + nl() + "type T {" + nl() + rng.choice(['"fd"' + nl(), ""]) + "f: Int" + nl() + "}" + nl() \
             + "extend" + nl() + rng.choice(["#c" + rng.choice(terms), ""]) + "type T {" + nl() + "g: Int }" + nl() + rng.choice(['"q"' + nl() + "query Q { f }", "{ f }"])
         recs.append({"src": abstract_text(text), "checks": token_checks(text, 80), "what": "tokens"})
+    # an execution error that carries the field nodes of the request AND the source / positions of another text: a resolver
+    # parses GraphQL text of its own and lets the syntax error escape. locations are the true ones in that other text; the
+    # rendered text excerpts the request at the nodes
+    from graphql import GraphQLSyntaxError as _GSE
+    for _ in range(25 if tier == "quick" else 250):
+        inner = "".join(rng.choice(["a", " ", "{", "\n", "\r\n", "\r"]) for _ in range(rng.randrange(3, 40)))
+        pos = rng.randrange(len(inner) + 1)
+        if pos and inner[pos - 1] == "\r" and inner[pos:pos + 1] == "\n":
+            pos += 1
+        request = rng.choice(["{ inner }", "{\n  inner\n}", "{ deep {\r\n ok\n  inner } }", "{ a: inner\n\n b: inner }"])
+
+        class RootS(Root):
+            @property
+            def inner(self):
+                raise _GSE(Source(inner, "inner text"), pos, "bad")
+
+            @property
+            def deep(self):
+                return RootS(self.d + 1)
+        try:
+            res = execute_sync(build_schema(V_SCHEMA.replace("boom: Int  deep: Deep }", "boom: Int  deep: Deep  inner: Int }").replace("type Deep {", "type Deep { inner: Int ")),
+                               parse(Source(request)), RootS())
+        except Exception as ex:  # noqa: BLE001
+            all_fmt.append((request, ("execute-raises", type(ex).__name__)))
+            continue
+        for e in res.errors or []:
+            if not (e.source is not None and e.positions and e.nodes):
+                continue
+            locs = e.locations or []
+            recs.append({"src": abstract_text(e.source.body), "checks": [[p_, l.line, l.column] for p_, l in zip(e.positions, locs)], "what": "execution-inner-source"})
+            try:
+                fl = e.formatted.get("locations", [])
+                if [(f["line"], f["column"]) for f in fl] != [(l.line, l.column) for l in locs]:
+                    all_fmt.append((request, ("formatted-differs", pos)))
+                s_ = str(e)
+                repr(e)
+            except Exception as ex:  # noqa: BLE001
+                all_fmt.append((request, ("format-raises", type(ex).__name__)))
+                continue
+            observed.append((request, [n.loc.start for n in e.nodes if n.loc], s_))
     for base in corpus + V_DOCS:
         for k in range(n_var):
             texts.append(base if k == 0 else rewrite_terminators(base, rng))
